@@ -292,7 +292,7 @@ def run_shard(ctx):
         elif nontrivial:
             # bounded-exhaustive ordered selections on a deterministic subset of the corpus,
             # random sequences with repetition on everything
-            if int(ch[:2], 16) % (12 if ctx.tier == "quick" else 2) == 0:
+            if int(ch[:2], 16) % (12 if ctx.tier == "quick" else 2) == 0 and len(data) < 2500:
                 qs = [q for q in QUERIES if q not in ("dumps", "ast_dump", "str_results")]
                 seqs += [list(s) for s in itertools.permutations(qs, maxlen)]
             for _ in range(3 if ctx.tier == "quick" else 5):
